@@ -415,6 +415,13 @@ class HttpFuzz:
         self.heavy = [r for r in self.rules if r.endpoint in HEAVY]
         self.mut_rules = sorted((r for r in self.app.app.url_map.iter_rules()
                                  if r.methods & {"POST", "PUT", "DELETE"}), key=lambda r: (r.rule, r.endpoint))
+        try:
+            import asgiref  # noqa: F401
+        except ImportError:
+            # POST /media/inspect is an `async def` view: Flask cannot dispatch it without its optional
+            # `async` extra, which this sandbox lacks (RuntimeError before the view runs) – fuzz_mp4
+            # runs the body of that view instead
+            self.mut_rules = [r for r in self.mut_rules if r.endpoint != "inspect-media"]
         self.names = c16_http.all_option_names()
         self.pool = c16_http.option_value_pool()
         self.kinds = c16_http.option_kinds()
@@ -477,7 +484,9 @@ class HttpFuzz:
             import io
             kw["data"] = {"file": (io.BytesIO(b"\x00\x00\x00\x08free"), "x.mp4")}
         try:
-            r = self.clients[who].open(url, method=method, headers=headers or {}, **kw)
+            import contextlib
+            with contextlib.redirect_stdout(H._DEVNULL):
+                r = self.clients[who].open(url, method=method, headers=headers or {}, **kw)
             status, to = r.status_code, False
             r.close()
         except H.Timeout:
